@@ -294,7 +294,7 @@ class ConnectionPool(RequestInterface):
         ]
 
         # First we handle cleaning up any connections that are closed,
-        # have expired their keep-alive, or surplus idle connections.
+        # or have expired their keep-alive.
         for connection in list(self._connections):
             if connection.is_closed():
                 # log: "removing closed connection"
@@ -303,7 +303,11 @@ class ConnectionPool(RequestInterface):
                 # log: "closing expired connection"
                 self._connections.remove(connection)
                 closing_connections.append(connection)
-            elif (
+
+        # Then any surplus idle connections. Only the connections that remain
+        # count towards the keep-alive limit.
+        for connection in list(self._connections):
+            if (
                 connection.is_idle()
                 and connection not in assigned
                 and len(
